@@ -18,7 +18,7 @@ def rp(it, st, fi):
         return orig(it, st, fi)
     finally:
         print('path', cnt[0], '%.1fs' % (time.time() - t), 'obl', len(st.obligations), 'pc', len(st.pc), 'checks', eng.solver.n_checks,
-              'line', st.cur_line, flush=True)
+              'line', st.cur_line, ' '.join(st.oracle.tags) if '--tags' in sys.argv else '', flush=True)
 
 
 eng.run_path = rp
